@@ -18,6 +18,9 @@ BUILDS = {
     "serde": ["--features", "rand,serde"],
     "compact": ["--features", "rand,compactserde"],
     "detcompact": ["--features", "det,compactserde"],
+    # the crate as a downstream release build compiles it (no debug assertions, no overflow checks): data races
+    # and other optimisation-dependent behaviour can be invisible in the checked build and visible here
+    "randfast": ["--features", "rand", "--profile", "fast"],
 }
 
 def sh(cmd, cwd=None, timeout=None, env=None, stdin=None):
@@ -111,8 +114,9 @@ def build_harness(variant):
         if not os.path.exists(lock):
             import shutil
             shutil.copy(os.path.join(REPO, "Cargo.lock"), lock)
-        rc, out, err, dt = sh(["cargo", "build", "--release", "--offline"] + BUILDS[variant], cwd=HARNESS, env=env, timeout=1200)
-        exe = os.path.join(WORK, "target-" + variant, "release", "tsharness")
+        prof = [] if "--profile" in BUILDS[variant] else ["--release"]
+        rc, out, err, dt = sh(["cargo", "build", "--offline"] + prof + BUILDS[variant], cwd=HARNESS, env=env, timeout=1200)
+        exe = os.path.join(WORK, "target-" + variant, "release" if prof else BUILDS[variant][BUILDS[variant].index("--profile") + 1], "tsharness")
         res = (rc == 0 and os.path.exists(exe), exe, (out + err)[-3000:], dt)
         _built[variant] = res
         return res
